@@ -231,21 +231,31 @@ func WriteSfm(sfmData *structs.SegFullMeta) {
 		return
 	}
 
-	sfmFd, err := os.OpenFile(sfmFname, os.O_WRONLY|os.O_CREATE|os.O_TRUNC, 0644)
+	// Write a temp file and rename it over the sfm file: truncating the sfm file in
+	// place would leave it empty if the process dies before the write, and a segment
+	// whose sfm file cannot be parsed is not picked up at the next start.
+	tmpSfmFname := sfmFname + ".tmp"
+	sfmFd, err := os.OpenFile(tmpSfmFname, os.O_WRONLY|os.O_CREATE|os.O_TRUNC, 0644)
 	if err != nil {
-		log.Errorf("WriteSfm: failed to open a sfm filename=%v: err=%v", sfmFname, err)
+		log.Errorf("WriteSfm: failed to open a sfm filename=%v: err=%v", tmpSfmFname, err)
 		return
 	}
 	defer sfmFd.Close()
 
 	if _, err := sfmFd.Write(sfmJson); err != nil {
-		log.Errorf("WriteSfm: failed to write sfm: %v: err: %v", sfmFname, err)
+		log.Errorf("WriteSfm: failed to write sfm: %v: err: %v", tmpSfmFname, err)
 		return
 	}
 
 	err = sfmFd.Sync()
 	if err != nil {
-		log.Errorf("WriteSfm: failed to sync sfm: %v: err: %v", sfmFname, err)
+		log.Errorf("WriteSfm: failed to sync sfm: %v: err: %v", tmpSfmFname, err)
+		return
+	}
+
+	err = os.Rename(tmpSfmFname, sfmFname)
+	if err != nil {
+		log.Errorf("WriteSfm: failed to rename %v to %v: err: %v", tmpSfmFname, sfmFname, err)
 		return
 	}
 }
